@@ -295,7 +295,7 @@ class Ctx:
               "coverage": cov, "assumptions": self.assumptions, "notes": self.notes,
               "wall_s": round(time.time() - self.t0, 2),
               "violations": sum(len(l) for l in viol.values())}
-        if not self.is_replay and not os.environ.get("VERIF_NO_EVIDENCE"):
+        if not self.is_replay and not getattr(self, "no_evidence", False) and not os.environ.get("VERIF_NO_EVIDENCE"):
             (VERIF / "evidence").mkdir(exist_ok=True)
             (VERIF / "evidence" / f"{prop}.json").write_text(
                 json.dumps(ev, indent=1, default=str))
